@@ -1,6 +1,6 @@
 (* C18 -- Ill-formed model elements are rejected at creation, well-formed ones accepted.  Statements only. *)
 From Coq Require Import ZArith List Bool.
-From PS.model Require Import Smt Enc Prog.
+From PS.model Require Import Smt Enc Ind Prog.
 From PS.spec Require Import Spec.
 From PS.proofs Require Import Base C18_proof Examples.
 Import ListNotations.
@@ -61,7 +61,8 @@ Theorem C18_cumulative_size : forall st id size prod cost,
 Proof. exact rule_cumulative_size. Qed.
 Print Assumptions C18_cumulative_size.
 Theorem C18_constraint_illformed : forall st id opt e re,
-  find_cons st id = None -> resolve st e = Some re -> wf_constraint id opt re = false ->
+  find_cons st id = None -> resolve st e = Some re -> buffer_known st re = true ->
+  wf_constraint id opt re = false ->
   step_problem st (ONewConstraint id opt e) = Err.
 Proof. exact rule_constraint_illformed. Qed.
 Print Assumptions C18_constraint_illformed.
